@@ -371,6 +371,31 @@ def drive_default(chk, rng, thorough):
             else:
                 val = bool(fn())
             events.append({"ev": "pred", "which": which, "a": defreg.cont({a: 1}), "b": defreg.cont({b: 1}), "val": bool(val)})
+    # a bare number stands for the dimensionless quantity: compatible exactly with units of empty dimensionality, unitless or not
+    dimless = [n for n in canon if not ureg.get_dimensionality(n)]
+    cands = [{n: 1} for n in dimless] + [{rng.choice(canon): 1} for _ in range(40)]
+    for _ in range(60):
+        a = rng.choice(canon)
+        same = [n for n in canon if ureg.get_dimensionality(n) == ureg.get_dimensionality(a) and n != a]
+        if same:
+            cands.append({a: 1, rng.choice(same): -1})
+    for d in cands:
+        try:
+            ua = parse(d)
+        except Exception:
+            continue
+        for which, fn in (("unit.is_compatible_with(number)", lambda: ureg.Unit(ua).is_compatible_with(rng.choice([5, 2.5, 0]))),
+                          ("ureg.is_compatible_with(unit, number)", lambda: ureg.is_compatible_with(ureg.Unit(ua), 3)),
+                          ("q.is_compatible_with(number)", lambda: Q(2.0, ua).is_compatible_with(7)),
+                          ("ureg.is_compatible_with(number, unit)", lambda: ureg.is_compatible_with(3, ureg.Unit(ua))),
+                          ("ureg.is_compatible_with(number, str)", lambda: ureg.is_compatible_with(3, defreg.expr(d))),
+                          ("ureg.is_compatible_with(str, number)", lambda: ureg.is_compatible_with(defreg.expr(d), 3))):
+            try:
+                val = bool(fn())
+            except Exception as ex:
+                chk.diverge({"clause": "predicate-raises", "which": which, "exc": type(ex).__name__}, {"unit": d})
+                continue
+            events.append({"ev": "pred", "which": which, "a": defreg.cont(d), "b": defreg.cont({}), "val": val})
     # compound pairs: congruence on real units
     for _ in range(3000 if thorough else 500):
         a, b = rng.choice(canon), rng.choice(canon)
